@@ -144,7 +144,9 @@ func (o *ackImmutable) OnBlock(n *world.Node, rec *world.BlockRecord) {
 func runC03(c *core.Ctx, crashes bool) {
 	ch := c.Ch
 	nChains := ch.Range(2, 4)
-	w, e := buildTraffic(c, nChains, world.DefaultClientParams())
+	params := world.DefaultClientParams()
+	params.TimeDelay = []uint64{0, 0, 1_000_000_000, 3_000_000_000}[ch.Int(4)] // confirmation delay of every client
+	w, e := buildTraffic(c, nChains, params)
 	// some relay chains refuse some traffic (error acks written by the relay)
 	for _, n := range w.Nodes {
 		if ch.Bool(1, 3) {
@@ -173,7 +175,27 @@ func runC03(c *core.Ctx, crashes bool) {
 	steps := (70 + ch.Int(100)) * c.Scale
 	for i := 0; i < steps; i++ {
 		c.Step("c03")
-		switch ch.Pick([]int{25, 35, 30, 5, 5}) {
+		switch ch.Pick([]int{25, 35, 30, 5, 5, 4, 6}) {
+		case 5: // a relay chain opens (or closes) its routes while traffic is under way
+			n := w.Nodes[ch.Int(len(w.Nodes))]
+			if n.Down {
+				continue
+			}
+			rules := [][]string{{"*,*,*"}, {"*,*,*"}, {"*,*,NFT"}, {"*,*,MT"}}[ch.Int(4)]
+			c.Check(w.SetRules(n, rules))
+			_, err := w.Block(n, nil, world.NoCrash)
+			c.Check(err)
+			w.Stats.Inc("rules-changed-mid-run")
+			w.Log.Add("rules of %s now %q", n.Name, rules)
+		case 6: // an old receive (also one a relay chain refused earlier) is submitted again, bytes and proof unchanged
+			old := genuineSent(e, scen.KRecv)
+			if len(old) == 0 {
+				continue
+			}
+			d := scen.CloneSent(old[ch.Int(len(old))])
+			d.Mut = "replay-recv"
+			w.Stats.Inc("replay-recv")
+			e.Submit(d)
 		case 0:
 			e.RandomUserOp(w.Nodes[ch.Int(len(w.Nodes))], uni)
 		case 1:
